@@ -13,6 +13,12 @@
      edge(type_, field)  <-- edge(_, type_), field(type_, field);
      edge(type_, variant)<-- edge(_, type_), variant(type_, variant);
      edge(field, type_)  <-- edge(_, field), local_type_of(field, type_);
+     edge(root, root)    <-- root(root), is_struct(root), !field(root, _);        [fix: commit 8ae740d]
+     edge(type_, type_)  <-- edge(_, type_), is_struct(type_), !field(type_, _);  [fix: commit 8ae740d]
+
+   The negation is stratified: [field] is complete before the [edge] stratum is evaluated, so
+   "a struct with no field fact" is an input of the edge rules like the other relations ([f_leaf];
+   the translator computes it from the dumped [field] relation, per crate, as the code does).
 
    ascent evaluates these to the least fixpoint; the order in which it visits facts depends on hash
    iteration order.  [iterate] is one such evaluation (semi-naive in spirit: derive, add what is new,
@@ -29,6 +35,7 @@ Section Closure.
   Record facts := mkFacts {
     f_root : list A;        (* root(x) *)
     f_unit : list A;        (* items that are unit structs *)
+    f_leaf : list A;        (* is_struct(x), !field(x, _): structs with no serialisable field *)
     f_field : rel;          (* field(x, f) *)
     f_variant : rel;        (* variant(e, v) *)
     f_type : rel;           (* local_type_of(f, t) *)
@@ -41,15 +48,16 @@ Section Closure.
   (* the second components of the facts of [r] whose first component is [x] *)
   Definition succs (r : rel) (x : A) : list A := map snd (filter (fun p => eqb (fst p) x) r).
 
-  (* the three root rules *)
+  (* the root rules *)
   Definition init (F : facts) : rel :=
-    flat_map (fun r => (if mem r (f_unit F) then [(r, r)] else [])
+    flat_map (fun r => (if mem r (f_unit F) || mem r (f_leaf F) then [(r, r)] else [])
                        ++ map (pair r) (succs (f_field F) r)
                        ++ map (pair r) (succs (f_variant F) r)) (f_root F).
 
-  (* the three recursive rules, applied once to every edge of [E] *)
+  (* the recursive rules, applied once to every edge of [E] *)
   Definition derive1 (F : facts) (E : rel) : rel :=
-    flat_map (fun e => map (pair (snd e)) (succs (f_field F ++ f_variant F ++ f_type F) (snd e))) E.
+    flat_map (fun e => (if mem (snd e) (f_leaf F) then [(snd e, snd e)] else [])
+                       ++ map (pair (snd e)) (succs (f_field F ++ f_variant F ++ f_type F) (snd e))) E.
 
   Definition add_new (E new : rel) : rel :=
     fold_left (fun acc e => if mem_edge e acc then acc else acc ++ [e]) new E.
@@ -69,9 +77,9 @@ Section Closure.
      earlier crates stay in the Filter, the new crate's facts are added, and the program is run to
      its fixpoint again *)
   Definition union (F G : facts) : facts :=
-    mkFacts (f_root F ++ f_root G) (f_unit F ++ f_unit G) (f_field F ++ f_field G)
+    mkFacts (f_root F ++ f_root G) (f_unit F ++ f_unit G) (f_leaf F ++ f_leaf G) (f_field F ++ f_field G)
             (f_variant F ++ f_variant G) (f_type F ++ f_type G).
-  Definition empty : facts := mkFacts [] [] [] [] [].
+  Definition empty : facts := mkFacts [] [] [] [] [] [].
 
   Fixpoint visit (fuel : nat) (acc : facts) (E : rel) (crates : list facts) : option rel :=
     match crates with
